@@ -264,6 +264,11 @@ func runProp(prop, tier, repo, verif string, workers int, seed int64, solverBin,
 	}
 	tLoad := time.Since(t0).Seconds()
 	cfgs := pd.Instances(tier, L)
+	if x, err := strconv.ParseFloat(os.Getenv("SYMGO_WALLX"), 64); err == nil && x > 0 {
+		for _, c := range cfgs { // exploration aid: scale the per-instance time caps
+			c.MaxWallS *= x
+		}
+	}
 	if os.Getenv("SYMGO_COUNT") != "" {
 		tot := 0.0
 		for _, c := range cfgs {
@@ -776,7 +781,6 @@ func replayWitness(repo, verif, file string) int {
 	return 0
 }
 
-
 // boundsText states, per property, what the instance parameters bound (quick; thorough).
 var boundsText = map[string][2]string{
 	"C01": {"box body lengths selected per type from calib/box_lengths.json (first success lengths, progressions of count-driven boxes, 0,4,..,24), <= 128 bytes, 32- and 64-bit headers, both decoders; 9 skeleton files with every third leaf symbolic", "every body length 0..96 (64-bit header 0..40), every leaf of every skeleton file"},
@@ -790,15 +794,15 @@ var boundsText = map[string][2]string{
 	"C09": {"5 stsc layouts x 1-2 stts entries x {built, decoded} x {stco,co64}x{explicit,uniform} (2 of 4) x option sets {0,5,11}; <= 8 samples; symbolic deltas, sizes, offsets, sample numbers, intervals and times", "11 layouts x 1-3 stts entries x all variants x 12 option sets"},
 	"C10": {"layouts v, vc, va, a, vav (1-3 tracks): a symbolic crop duration 1..400 ms for all four {co64, lazy} variants, plus 6-9 concrete durations around the sample boundaries (one variant each)", "concrete durations with all four variants"},
 	"C11": {"segmenter: layouts v,vc,va,vr,var x segment durations {1,40,80,100,200} ms x {single,multi,lazy}; resegmenter 4 shapes; combine-segs 4 shapes; Fragmentify 1..4 samples", "all layouts x durations; more resegmenter shapes; Fragmentify 1..6"},
-	"C12": {"11 segment layouts over S,f,N,D,E,M x decode flags x both decoders; UpdateSidx for all (add, nonZeroEPT)", "17 layouts"},
+	"C12": {"11 segment layouts over S,f,N,D,E,M x decode flags x both decoders, plus tfra-delimited layouts (TfTM, TTfM, TfTfM) under every flag combination and top-level sidx layouts; UpdateSidx for all (add, nonZeroEPT)", "17 layouts"},
 	"C13": {"write/read sequences of <= 4 symbolic-width values, Exp-Golomb at all alignments, all byte strings <= 6 through the EBSP writer/reader, one inductive writer step", "byte strings <= 8"},
 	"C14": {"scanner: two units, start codes 3/4, lengths 1..9 x {1,2,5,9}; conversions and walkers: 6 layouts of <= 3 units (AVC) and 6 (HEVC); symbolic bytes under the no-emulation assumption", "same instance set (already exhaustive for the shapes), longer time caps"},
 	"C15": {"AVC: 22 SPS structures x code-length classes {0,1,3,8}; 9 SPS structures x {more,idr} x classes {0,1,1001,3,1008} for PPS + I slice; 5 config instances; 7 extended SPS shapes (scaling matrix, full VUI, HRD) and 4 PPS scaling-matrix shapes x classes {0,1,1001,3}; P/B/SP/SI slice headers: 6 slice types x 17 shapes x half of the classes {0,1,1001,3}. HEVC: 52 SPS (variant,shape) pairs x classes {0,1,3,8}; 59 (SPS,PPS,slice) structures x classes {0,1,1001,3,1008}; 5 hvcC/codec string instances. Info bits of every ue/se element and all fixed-width fields symbolic", "all 64 AVC SPS structures x classes 0..8 + sweeps; 91 HEVC SPS pairs x 11 classes; 179 HEVC slice structures x 13 classes"},
-	"C16": {"every entry point x every input length 0..10 (walkers) / 0..6 (bit-level parsers) / 0..8 (SEI) / hvcC 0..28, fully symbolic bytes; budgets 50000+4000*N steps, 64 KiB+64*N bytes", "lengths 0..14 / 0..10 / 0..12 / hvcC 0..34"},
+	"C16": {"every entry point x every input length 0..10 (walkers) / 0..6 (bit-level parsers, and 0..8 with reversed search order) / 0..8 (SEI; HEVC pic timing also with concrete field lengths) / hvcC 0..28, fully symbolic bytes; budgets 50000+4000*N steps, 64 KiB+64*N bytes; huge Exp-Golomb mode: C15 generator shapes (classes 0,1) with each ue/se element in turn written with 16/22/31 leading zeros and the stream cut, concrete flags, budgets 8e6 steps / 256 KiB", "lengths 0..14 / 0..10 (0..12 reversed) / 0..12 / hvcC 0..34; huge mode with 7,16,22,31,32,40 leading zeros"},
 	"C17": {"message lists with payloads 0..3 (+0..1) symbolic bytes, sizes 254..511, time code 0..2 clocks, AVC pic timing 7 shapes, fixed messages, 5 pass-through kinds", "payloads 0..5 (+0..3), 0..3 clocks, all pic timing shapes"},
-	"C18": {"ASC for object types 2,5,29 (symbolic frequencies / channel configuration), ADTS with 0..4 junk bytes", "0..8 junk bytes"},
-	"C19": {"10 track lists over {AVC,HEVC,AAC,AC-3,EC-3,wvtt,stpp}, <= 3 tracks, symbolic timescales, language letters and codec fields", "14 track lists"},
-	"C20": {"9 (input kind, operation) pairs on constructor-built files with symbolic payload; one box of every registered type with calibration-selected body lengths <= 48", "every body length 0..64"},
+	"C18": {"ASC for object types 2,5,29 (symbolic frequencies / channel configuration), ADTS with 0..4 junk bytes and one long-junk instance, mp4a sample entry round trip with symbolic fields", "0..8 junk bytes"},
+	"C19": {"10 track lists over {AVC,HEVC,AAC,AC-3,EC-3,wvtt,stpp}, <= 3 tracks, symbolic timescales, language letters and codec fields (AVC profile/level bytes, HEVC tier/profile and level bytes)", "14 track lists"},
+	"C20": {"12 (input kind, operation) pairs on constructor-built files with symbolic payload (decode+info+encode, decrypt cenc/cbcs, encrypt cenc/cbcs of clear audio); one box of every registered type with calibration-selected body lengths <= 48", "every body length 0..64"},
 }
 
 func boundsOf(pd *PropDef, tier string, cfgs []*HarnessCfg) map[string]interface{} {
